@@ -123,12 +123,24 @@ class Sched:
 
     def run(self, chooser, max_steps=4000):
         self.wait_quiet()
+        spin, last = 0, None
         while self.steps < max_steps:
             rd = self.ready()
             if not rd:
                 if self.all_done():
                     return "done"
                 return "deadlock"
+            # one thread running alone for a long time while nobody else can
+            # run any more is polling for something that will never happen:
+            # a livelock, e.g. a stop() draining a queue whose consumer has
+            # gone (a complete stop() or delivery sequence takes < 100 steps)
+            if len(rd) == 1 and rd == last:
+                spin += 1
+                if spin > 250:
+                    return "livelock"
+            else:
+                spin = 0
+            last = rd
             self.grant(chooser(rd, self))
         return "budget"
 
